@@ -788,6 +788,97 @@ func (g *gen) facade() {
 		}
 		rep.Evaluations++
 	}
+	// every subset of {validator, parser, loader} x every facade method: the component's own answer when
+	// the component the method needs is configured, that method's "... is not defined" error when it is
+	// not (whatever else is configured), never a panic
+	{
+		verdict := errors.New("the validator's verdict")
+		doc := map[string]any{"k": "v"}
+		wantDoc, _ := json.Marshal(doc)
+		for mask := 0; mask < 8; mask++ {
+			nP, nV := 0, 0
+			var os []processor.Opt
+			if mask&1 != 0 {
+				os = append(os, processor.WithValidator(stubValidator{err: verdict, calls: &nV}))
+			}
+			if mask&2 != 0 {
+				os = append(os, processor.WithParser(stubParser{claim: cl, idx: 6, calls: &nP}))
+			}
+			if mask&4 != 0 {
+				os = append(os, processor.WithDocumentLoader(stubLoader{doc: &ld.RemoteDocument{Document: doc}}))
+			}
+			p := processor.InitProcessorOptions(&processor.Processor{}, os...)
+			guard := func(method string, f func() string) {
+				rep.Evaluations++
+				rep.Count("facade:subset")
+				var bad string
+				func() {
+					defer func() {
+						if r := recover(); r != nil {
+							bad = fmt.Sprintf("panic: %v", r)
+						}
+					}()
+					bad = f()
+				}()
+				if bad != "" {
+					fail(fmt.Sprintf("%s on a processor with validator=%v parser=%v loader=%v: %s", method, mask&1 != 0, mask&2 != 0, mask&4 != 0, bad),
+						map[string]any{"subset": mask, "method": method})
+				}
+			}
+			notDefined := func(err error, what string) string {
+				if err == nil || err.Error() != what+" is not defined" {
+					return fmt.Sprintf("expected the error %q, got %v", what+" is not defined", err)
+				}
+				return ""
+			}
+			guard("ValidateData", func() string {
+				err := p.ValidateData([]byte("{}"), []byte("{}"))
+				if mask&1 != 0 {
+					if err != verdict || nV != 1 {
+						return fmt.Sprintf("expected the validator's own answer, got %v after %d validator call(s)", err, nV)
+					}
+					return ""
+				}
+				return notDefined(err, "validator")
+			})
+			guard("GetFieldSlotIndex", func() string {
+				i, err := p.GetFieldSlotIndex("f", "t", []byte("{}"))
+				if mask&2 != 0 {
+					if i != 6 || err != nil {
+						return fmt.Sprintf("expected the parser's own answer (6, nil), got (%d, %v)", i, err)
+					}
+					return ""
+				}
+				return notDefined(err, "parser")
+			})
+			guard("ParseClaim", func() string {
+				c, err := p.ParseClaim(ctx, verifiable.W3CCredential{}, &processor.CoreClaimOptions{})
+				if mask&2 != 0 {
+					if c != cl || err != nil {
+						return fmt.Sprintf("expected the parser's own answer, got (%v, %v)", c, err)
+					}
+					return ""
+				}
+				if c != nil {
+					return "a claim without a parser"
+				}
+				return notDefined(err, "parser")
+			})
+			guard("Load", func() string {
+				b, err := p.Load(ctx, "https://x")
+				if mask&4 != 0 {
+					if err != nil || string(b) != string(wantDoc) {
+						return fmt.Sprintf("expected the loader's document, got (%s, %v)", b, err)
+					}
+					return ""
+				}
+				if b != nil {
+					return "a document without a loader"
+				}
+				return notDefined(err, "loader")
+			})
+		}
+	}
 	// missing components
 	empty := processor.InitProcessorOptions(&processor.Processor{})
 	if _, err := empty.GetFieldSlotIndex("f", "t", nil); err == nil {
@@ -1083,7 +1174,7 @@ func (g *gen) writeShards() error {
 func Run(cfg *common.Config) (*common.Report, error) {
 	rep := common.NewReport("C17")
 	rep.Correspondence = "Claim.Run.lmismatches / hmismatches / amismatches / fmismatches: get_field_slot_index, parser_parse_claim and the facade (Claim/Model.v) vs json.Parser.GetFieldSlotIndex / ParseClaim and processor.Processor; to_core_claim vs W3CCredential.ToCoreClaim on a credential of each type; and the model's own lookup against the model's own claim on the recorded field encodings"
-	rep.Rule = "ALL 6^4 = 1296 assignments of the four data slots to {none, price, count, name, info.insured, info.since}; per assignment: lookups of the five fields, an unnamed field and the empty string by type name and by type IRI, an unknown type, the processor facade with and without parser, and the claim of a credential of that type (subject id / expiration varied; for every 8th assignment the credential's contexts are ipfs:// objects resolvable only through WithIPFSClient / WithIPFSGateway in the options; for every 6th assignment also credentials without credentialSubject.type whose top-level type pair is written in both orders, and with three types / without VerifiableCredential: no claim); plus reordered and repeated parts, absent designated fields, 32 malformed attributes (a second '=' in a part in every position, a lost '&', empty key, doubled / trailing '='), non-string attribute, no attribute, array-shaped scoped context, sibling types sorting before/after (30 repetitions), 13 bad schema documents, stub components behind the facade (results and the options object passed through, field by field); ParseClaim through the facade vs the parser called directly for every option field and three sets of merklizer options (a loader that alone resolves the contexts, + custom hasher, + safe mode off); for every 9th assignment a claim is first built with a second document loader that serves another schema document (merklized / the assignment read backwards) at the same URL and type. distinct = distinct (schema, lookups, credential) inputs; all are non-trivial (each reaches the attribute parser or one of the documented error points)."
+	rep.Rule = "ALL 6^4 = 1296 assignments of the four data slots to {none, price, count, name, info.insured, info.since}; per assignment: lookups of the five fields, an unnamed field and the empty string by type name and by type IRI, an unknown type, the processor facade with and without parser, and the claim of a credential of that type (subject id / expiration varied; for every 8th assignment the credential's contexts are ipfs:// objects resolvable only through WithIPFSClient / WithIPFSGateway in the options; for every 6th assignment also credentials without credentialSubject.type whose top-level type pair is written in both orders, and with three types / without VerifiableCredential: no claim); plus reordered and repeated parts, absent designated fields, 32 malformed attributes (a second '=' in a part in every position, a lost '&', empty key, doubled / trailing '='), non-string attribute, no attribute, array-shaped scoped context, sibling types sorting before/after (30 repetitions), 13 bad schema documents, every subset of {validator, parser, loader} x every facade method with stub components; stub components behind the facade (results and the options object passed through, field by field); ParseClaim through the facade vs the parser called directly for every option field and three sets of merklizer options (a loader that alone resolves the contexts, + custom hasher, + safe mode off); for every 9th assignment a claim is first built with a second document loader that serves another schema document (merklized / the assignment read backwards) at the same URL and type. distinct = distinct (schema, lookups, credential) inputs; all are non-trivial (each reaches the attribute parser or one of the documented error points)."
 	g := &gen{cfg: cfg, rep: rep, env: credgen.NewEnv(), env2: credgen.NewEnv()}
 	merklize.SetDocumentLoader(g.env.Loader)
 	credgen.InstallGateway(g.env)
